@@ -53,27 +53,34 @@ fn reported_path(e: &ParseError) -> Vec<(String, String)> {
     p
 }
 
+/// `t % 3` selects the syntactic place; `t / 3` the coefficient: non-zero, explicit 0.0, explicit -0.0 (a term
+/// with a zero coefficient still occurs in the message, so its id is used by the function: C01's id-set clause)
 fn add_undefined(f: &mut Option<v1::Function>, id: u64, t: u8) {
     use v1::function::Function as F;
     let cur = f.take();
     let mut g = cur.unwrap_or_else(|| crate::mk::fconst(0.0));
+    let (c1, c2) = match t / 3 {
+        0 => (1.0, 2.0),
+        1 => (0.0, 0.0),
+        _ => (-0.0, -0.0),
+    };
     match (&mut g.function, t % 3) {
-        (Some(F::Linear(l)), _) => l.terms.push(crate::mk::term(id, 1.0)),
+        (Some(F::Linear(l)), _) => l.terms.push(crate::mk::term(id, c1)),
         (Some(F::Quadratic(q)), 0) => {
             q.rows.push(id);
             q.columns.push(id);
-            q.values.push(2.0);
+            q.values.push(c2);
         }
         (Some(F::Quadratic(q)), _) => match &mut q.linear {
-            Some(l) => l.terms.push(crate::mk::term(id, 1.0)),
-            None => q.linear = Some(crate::mk::linear(vec![(id, 1.0)], 0.0)),
+            Some(l) => l.terms.push(crate::mk::term(id, c1)),
+            None => q.linear = Some(crate::mk::linear(vec![(id, c1)], 0.0)),
         },
-        (Some(F::Polynomial(p)), _) => p.terms.push(crate::mk::monomial(vec![id, id, id], 1.0)),
+        (Some(F::Polynomial(p)), _) => p.terms.push(crate::mk::monomial(vec![id, id, id], c1)),
         (Some(F::Constant(c)), _) => {
             let c = *c;
-            g = crate::mk::flin(crate::mk::linear(vec![(id, 1.0)], c));
+            g = crate::mk::flin(crate::mk::linear(vec![(id, c1)], c));
         }
-        _ => g = crate::mk::flin(crate::mk::linear(vec![(id, 1.0)], 0.0)),
+        _ => g = crate::mk::flin(crate::mk::linear(vec![(id, c1)], 0.0)),
     }
     *f = Some(g);
 }
@@ -121,8 +128,8 @@ fn enumerate_faults(base: &v1::Instance) -> Vec<Fault> {
         }
     }
     // undefined ids at each position, three syntactic places
-    for tpl in 0..3u8 {
-        v.push(fault(format!("undefined-id objective/{tpl}"), "undefined-id@objective", true, None, move |m| add_undefined(&mut m.objective, UNDEF, tpl)));
+    for tpl in 0..9u8 {
+        v.push(fault(format!("undefined-id objective/{tpl}"), if tpl < 3 { "undefined-id@objective" } else { "undefined-id@objective/zero-coefficient" }, true, None, move |m| add_undefined(&mut m.objective, UNDEF, tpl)));
         for i in 0..na {
             v.push(fault(format!("undefined-id constraint[{i}]/{tpl}"), "undefined-id@constraint", true, None, move |m| add_undefined(&mut m.constraints[i].function, UNDEF, tpl)));
         }
@@ -147,7 +154,18 @@ fn enumerate_faults(base: &v1::Instance) -> Vec<Fault> {
     }
     for i in 0..nv {
         v.push(fault(format!("variable[{i}].kind-unspecified"), "unset-kind", false, Some(("UnspecifiedEnum", "decision_variables")), move |m| m.decision_variables[i].kind = 0));
-        let shapes: [(&'static str, f64, f64); 5] = [("bound-nan-lower", f64::NAN, 1.0), ("bound-nan-upper", 0.0, f64::NAN), ("bound-lower=+inf", f64::INFINITY, f64::INFINITY), ("bound-upper=-inf", f64::NEG_INFINITY, f64::NEG_INFINITY), ("bound-lower>upper", 2.0, 1.0)];
+        let shapes: [(&'static str, f64, f64); 9] = [
+            ("bound-nan-lower", f64::NAN, 1.0),
+            ("bound-nan-upper", 0.0, f64::NAN),
+            ("bound-lower=+inf", f64::INFINITY, f64::INFINITY),
+            ("bound-upper=-inf", f64::NEG_INFINITY, f64::NEG_INFINITY),
+            ("bound-lower>upper", 2.0, 1.0),
+            // inverted by the smallest representable amounts
+            ("bound-lower>upper-by-one-ulp", 1.0000000000000002, 1.0),
+            ("bound-lower>upper-by-one-ulp", 0.30000000000000004, 0.3),
+            ("bound-lower>upper-by-one-ulp", 5e-324, 0.0),
+            ("bound-lower>upper-by-one-ulp", -1.0, -1.0000000000000002),
+        ];
         for (nm, lo, hi) in shapes {
             v.push(fault(format!("variable[{i}].{nm}"), nm, false, Some(("InvalidBound", "decision_variables")), move |m| m.decision_variables[i].bound = Some(crate::mk::bound(lo, hi))));
         }
@@ -369,14 +387,14 @@ impl Property for C08 {
         "C08"
     }
     fn rule(&self) -> &'static str {
-        "case = valid base instance (removed constraints, one-hot / SOS1 hints on active constraints, dependencies, parameters, all bound shapes) -> (1) accepted by validate() and by the typed conversion, typed content compared field by field through the public Parse impls, permutation of repeated fields gives an equal typed instance; (2) EVERY single fault at EVERY position of that base (duplicate ids at each pair position, undefined id in objective / each constraint / each removed constraint in three syntactic places, each required field unset, each invalid bound shape on each variable, each hint / dependency fault) and tape-chosen pairs; (3) the ParametricInstance analogue for validate(); \
+        "case = valid base instance (removed constraints, one-hot / SOS1 hints on active constraints, dependencies, parameters, all bound shapes) -> (1) accepted by validate() and by the typed conversion, typed content compared field by field through the public Parse impls, permutation of repeated fields gives an equal typed instance; (2) EVERY single fault at EVERY position of that base (duplicate ids at each pair position, undefined id in objective / each constraint / each removed constraint in three syntactic places with a non-zero, 0.0 and -0.0 coefficient, each required field unset, each invalid bound shape (NaN, wrong-side infinity, lower > upper by 1 or by one ulp) on each variable, each hint / dependency fault) and tape-chosen pairs; (3) the ParametricInstance analogue for validate(); \
          oracle = independent well-formedness predicate with expected error class and outermost path; non-trivial = base with a hint, a removed constraint and an absent bound, or a base that admits at least one fault; one evaluation = one base together with ALL its single faults (typically 40-150 faulted messages) and up to 6 pairs; distinct = sha256(base)"
     }
     fn required_labels(&self) -> Vec<String> {
         let mut v: Vec<String> = [
             "dup-variable-id", "dup-constraint-id@active", "dup-constraint-id@active/removed", "dup-constraint-id@removed", "undefined-id@objective", "undefined-id@constraint", "undefined-id@removed", "unset-sense", "unset-objective",
             "unset-objective-oneof", "unset-constraint-function", "unset-constraint-function-oneof", "unset-equality", "unset-removed-constraint", "unset-removed-function", "unset-removed-function-oneof", "unset-removed-equality", "unset-kind",
-            "bound-nan-lower", "bound-nan-upper", "bound-lower=+inf", "bound-upper=-inf", "bound-lower>upper", "hint-undefined-constraint", "hint-undefined-variable", "hint-repeated-variable", "hint-repeated-big-m", "dependency-key-undefined",
+            "bound-nan-lower", "bound-nan-upper", "bound-lower=+inf", "bound-upper=-inf", "bound-lower>upper", "bound-lower>upper-by-one-ulp", "undefined-id@objective/zero-coefficient", "hint-undefined-constraint", "hint-undefined-variable", "hint-repeated-variable", "hint-repeated-big-m", "dependency-key-undefined",
             "dependency-function-unset",
         ]
         .iter()
